@@ -22,6 +22,7 @@ import (
 	"net/http"
 	"net/http/httptest"
 	"net/url"
+	"runtime"
 	"strconv"
 	"strings"
 	"time"
@@ -54,13 +55,38 @@ var codeKey = []byte("fedcba9876543210fedcba9876543210")
 // state it was given so the driver can observe which URI is handed to the provider.
 type capProvider struct {
 	*providers.TestProvider
+	// when park is non-nil, the next ValidateSessionState / Revoke call announces itself on
+	// entered and waits for release: the request is held "in flight at the identity provider"
+	park    chan struct{}
+	entered chan struct{}
 }
 
 func (p *capProvider) GetSignInURL(redirectURI, state string) string {
 	return idpURL + "?state=" + url.QueryEscape(state)
 }
 
+func (p *capProvider) hold() {
+	if p.park != nil {
+		park := p.park
+		p.entered <- struct{}{}
+		<-park
+	}
+}
+
+func (p *capProvider) ValidateSessionState(s *sessions.SessionState) bool {
+	p.hold()
+	return p.TestProvider.ValidateSessionState(s)
+}
+
+func (p *capProvider) Revoke(s *sessions.SessionState) error {
+	p.hold()
+	return p.TestProvider.Revoke(s)
+}
+
 type world struct {
+	cfg     auth.Configuration
+	mux     http.Handler // auth.NewAuthenticatorMux for the same configuration, built on first use
+	muxErr  bool
 	a       *auth.Authenticator
 	tp      *capProvider
 	store   *sessions.CookieStore
@@ -102,7 +128,7 @@ func getWorld(domains []string, scheme string) *world {
 			EmailConfig: auth.EmailConfig{Domains: []string{"allowed.test"}},
 		},
 	}
-	tp := &capProvider{providers.NewTestProvider(nil)}
+	tp := &capProvider{TestProvider: providers.NewTestProvider(nil)}
 	a, err := auth.NewAuthenticator(cfg,
 		auth.SetValidators([]validators.Validator{validators.NewEmailDomainValidator([]string{"allowed.test"})}),
 		auth.SetProvider(tp),
@@ -121,9 +147,30 @@ func getWorld(domains []string, scheme string) *world {
 	}
 	store, err := sessions.NewCookieStore(cookieName+"_"+slug, sessions.CreateMiscreantCookieCipher(cookieSecret))
 	c.Must(err)
-	w := &world{a: a, tp: tp, store: store, domains: domains, scheme: scheme}
+	w := &world{cfg: cfg, a: a, tp: tp, store: store, domains: domains, scheme: scheme}
 	worlds[key] = w
 	return w
+}
+
+// outer returns the outermost handler cmd/sso-auth installs for this configuration
+// (auth.NewAuthenticatorMux: health check, host router, path router, one authenticator per
+// configured provider - here the repository's "test" provider type under the slug "test").
+func (w *world) outer() http.Handler {
+	if w.mux != nil || w.muxErr {
+		return w.mux
+	}
+	cfg := w.cfg
+	cfg.ProviderConfigs = map[string]auth.ProviderConfig{slug: {ProviderType: "test", ProviderSlug: slug,
+		ClientConfig: auth.ClientConfig{ID: "idp-client-id", Secret: "idp-client-secret"}}}
+	m, err := auth.NewAuthenticatorMux(cfg, statsdClient)
+	if err != nil || m == nil {
+		w.muxErr = true
+		bootCases = append(bootCases, c.Case{Coq: fmt.Sprintf("CBoot %s false", c.Strs(w.domains)),
+			JSON: map[string]interface{}{"kind": "boot", "what": "NewAuthenticatorMux", "domains": w.domains, "err": fmt.Sprint(err)}})
+		return nil
+	}
+	w.mux = m
+	return w.mux
 }
 
 func (w *world) sessionCookie(email string) *http.Cookie {
@@ -486,7 +533,7 @@ func genSig(r *c.Rng, uri, tsRaw, canon string) sigInfo {
 
 // ts matrix: text of the ts parameter built around now
 func genTS(r *c.Rng, now int64) string {
-	offs := []int64{0, -30, -120, -240, -360, -900, -86400, 240, 360, 86400, 1000000000}
+	offs := []int64{0, -30, -120, -240, -330, -360, -420, -900, -86400, 30, 240, 360, 86400, 1000000000}
 	t := now + offs[r.Intn(len(offs))]
 	s := strconv.FormatInt(t, 10)
 	switch r.Intn(30) {
@@ -666,6 +713,11 @@ type serveReq struct {
 	CType   string            // "", "urlencoded", "multipart", "json"
 	SigDesc map[string]string // sig value -> symbolic description, for alternates
 	Timed   bool              // part of a timed sequence: the clock is read before and after (case CServeT)
+	// through the outermost handler (auth.NewAuthenticatorMux) instead of Authenticator.ServeMux
+	ViaMux   bool
+	ReqHost  string // Host header as sent
+	PathKind string // "route" (/<slug>/<ep>), "ping", "robots"
+	Hdrs     []kv   // extra request headers (X-Forwarded-Proto, X-Forwarded-Host, ...)
 }
 
 // placement patterns: where the primary (P) and the alternate (A) value of a parameter go
@@ -861,6 +913,22 @@ func serve(sr serveReq) c.Case {
 		body = append(body, b...)
 	}
 	path := "/" + sr.Ep
+	handler := w.a.ServeMux
+	if sr.ViaMux {
+		handler = w.outer()
+		if handler == nil {
+			return c.Case{Coq: fmt.Sprintf("CBoot %s false", c.Strs(sr.Domains)),
+				JSON: map[string]interface{}{"kind": "boot", "domains": sr.Domains, "ok": false, "note": "request skipped: NewAuthenticatorMux refused this configuration"}}
+		}
+		switch sr.PathKind {
+		case "ping":
+			path = "/ping"
+		case "robots":
+			path = "/robots.txt"
+		default:
+			path = "/" + slug + "/" + sr.Ep
+		}
+	}
 	encQ := encodePairs(query)
 	if !sr.FormOK {
 		if encQ != "" {
@@ -901,9 +969,15 @@ func serve(sr serveReq) c.Case {
 	if sr.CbCSRF != nil {
 		req.AddCookie(&http.Cookie{Name: w.store.CSRFCookieName, Value: *sr.CbCSRF})
 	}
+	if sr.ViaMux {
+		req.Host = sr.ReqHost
+		for _, h := range sr.Hdrs {
+			req.Header.Set(h.K, h.V)
+		}
+	}
 	now := time.Now()
 	rec := httptest.NewRecorder()
-	w.a.ServeMux.ServeHTTP(rec, req)
+	handler.ServeHTTP(rec, req)
 	nowHi := time.Now()
 
 	var oLoc, oCarried *string
@@ -1003,13 +1077,20 @@ func serve(sr serveReq) c.Case {
 	cfg := fmt.Sprintf("{| c_domains := %s; c_secret := %s; c_client_id := %s; c_scheme := %s |}",
 		c.Strs(sr.Domains), c.Str(clientSecret), c.Str(clientID), c.Str(sr.Scheme))
 	coq := fmt.Sprintf("CServe %s %s %s %s %d %s %s", cfg, c.Z(now.UnixNano()), ep, wire, rec.Code, optStr(oLoc), optStr(oCarried))
-	if sr.Timed {
+	if sr.ViaMux {
+		pk := map[string]string{"ping": "OpPing", "robots": "OpRobots"}[sr.PathKind]
+		if pk == "" {
+			pk = "(OpRoute " + ep + ")"
+		}
+		coq = fmt.Sprintf("COuter %s %s %s %s %s %s %d %s", cfg, c.Str(authHost), c.Str(sr.ReqHost), pk, c.Z(now.UnixNano()), wire, rec.Code, optStr(oLoc))
+	} else if sr.Timed {
 		coq = fmt.Sprintf("CServeT %s %s %s %s %s %d %s %s", cfg, c.Z(now.UnixNano()), c.Z(nowHi.UnixNano()), ep, wire, rec.Code, optStr(oLoc), optStr(oCarried))
 	}
 	js := map[string]interface{}{"kind": "serve", "ep": sr.Ep, "method": sr.Method, "domains": sr.Domains, "ctype": sr.CType,
 		"query": query, "body": body, "session": sr.Session, "form_ok": formOK,
 		"provider_valid": sr.ProvValid, "revoke_ok": sr.RevokeOK,
-		"status": rec.Code, "location": oLoc, "carried": oCarried, "now": now.Unix(), "now_ns": now.UnixNano(), "timed": sr.Timed, "note": sr.description}
+		"status": rec.Code, "location": oLoc, "carried": oCarried, "now": now.Unix(), "now_ns": now.UnixNano(), "timed": sr.Timed, "note": sr.description,
+		"via_mux": sr.ViaMux, "req_host": sr.ReqHost, "path_kind": sr.PathKind, "headers": sr.Hdrs}
 	return c.Case{Coq: coq, JSON: js}
 }
 
@@ -1403,6 +1484,15 @@ func corpus() []c.Case {
 		mk("sign_out", "GET", "https://app.example.com/", "none", 0, clientSecret),
 		mk("sign_out", "POST", "https://app.example.com/", "good", 0, clientSecret),
 		mk("sign_out", "POST", "https://app.example.com/", "good", -360, clientSecret),
+		// between five and six minutes old, and seven minutes old
+		mk("sign_out", "POST", "https://app.example.com/", "none", -330, clientSecret),
+		mk("sign_out", "GET", "https://app.example.com/", "none", -330, clientSecret),
+		mk("sign_in", "GET", good, "good", -330, clientSecret),
+		mk("sign_in", "GET", good, "good", -420, clientSecret),
+		mk("sign_out", "POST", "https://app.example.com/", "none", -420, clientSecret),
+		// a little in the future (clock drift between the hosts) and far in the future: the age test is one-sided
+		mk("sign_in", "GET", good, "good", 30, clientSecret),
+		mk("sign_out", "POST", "https://app.example.com/", "none", 3600, clientSecret),
 		mk("sign_out", "POST", "https://evil.org/", "none", 0, clientSecret),
 		mk("sign_out", "GET", "https://é.example.com/", "none", 0, clientSecret),
 		mk("sign_out", "GET", "https://app.example.com/#\r\nX: y", "none", 0, clientSecret),
@@ -1436,6 +1526,137 @@ func corpus() []c.Case {
 				}
 			}
 		}
+	}
+	return cs
+}
+
+// ------------------------------------------------------------------ the outermost handler
+// Requests through auth.NewAuthenticatorMux (what cmd/sso-auth serves): Host header equal to the
+// configured server host or not (foreign name, port added, case changed, trailing dot, empty),
+// proxy headers a load balancer or an attacker may set, /ping, /robots.txt and the sign_in /
+// sign_out routes (no session cookie, so the provider plays no role).
+func genOuter(r *c.Rng) c.Case {
+	sr := baseServe(r)
+	sr.Scheme = "https"
+	if r.Chance(0.15) {
+		sr.Scheme = "http"
+	}
+	sr.Ep = r.Pick([]string{"sign_out", "sign_out", "sign_in"})
+	uri, ts, si := signedTriple(r, sr.Domains)
+	sr.URI, sr.TS, sr.SigVal, sr.SigCoq = uri, ts, si.Val, si.Coq
+	sr.Session = "none"
+	if sr.Ep == "sign_out" {
+		sr.Method = r.Pick([]string{"GET", "POST"})
+	}
+	sr.ViaMux = true
+	sr.PathKind = r.Pick([]string{"route", "route", "route", "route", "route", "route", "ping", "robots"})
+	sr.ReqHost = r.Pick([]string{authHost, authHost, authHost, authHost, authHost, "evil.test", "login.attacker.net:8443", authHost + ":443",
+		strings.ToUpper(authHost), authHost + ".", "", "app.example.com", "evil.test/" + authHost})
+	if r.Chance(0.6) {
+		sr.Hdrs = append(sr.Hdrs, kv{"X-Forwarded-Proto", r.Pick([]string{"http", "http", "https", "HTTP", "http, https", ""})})
+	}
+	if r.Chance(0.3) {
+		sr.Hdrs = append(sr.Hdrs, kv{"X-Forwarded-Host", r.Pick([]string{"evil.test", authHost, "attacker.net:443"})})
+	}
+	if r.Chance(0.15) {
+		sr.Hdrs = append(sr.Hdrs, kv{r.Pick([]string{"Forwarded", "X-Forwarded-For", "X-Forwarded-Port", "X-Forwarded-Scheme", "X-Original-URL", "X-Rewrite-URL"}),
+			r.Pick([]string{"proto=http;host=evil.test", "10.0.0.1", "80", "http", "https://evil.test/x", "/test/sign_out"})})
+	}
+	if r.Chance(0.4) {
+		addPlacement(r, &sr)
+	}
+	return serve(sr)
+}
+
+// ------------------------------------------------------------------ overlapping requests
+// Request A (a genuine, fresh, signed link of a logged-in user) is parked while the authenticator
+// asks the identity provider about the session; request B (somebody else's: a foreign or unsigned
+// redirect_uri, junk or absent signature, or another valid link) runs to completion meanwhile; A is
+// released. A rejected request comes first (state left behind by an error path). A and B are judged
+// separately - each answer must depend on its own parameters only. Half of the rounds run with
+// GOMAXPROCS(1) so that per-P caches (sync.Pool) behave the same way every time.
+func overlapCases(r *c.Rng, rounds int) []c.Case {
+	ex := []string{"example.com"}
+	w := getWorld(ex, "https")
+	if w == nil {
+		return nil
+	}
+	var cs []c.Case
+	mk := func(ep, method, uri, sess, sig, ctype string) serveReq {
+		ts := strconv.FormatInt(time.Now().Unix()-int64(r.Intn(60)), 10)
+		sr := serveReq{Ep: ep, Method: method, FormOK: true, ClientID: clientID, URI: uri, TS: ts, State: "st-" + ep, Session: sess, ProvValid: true,
+			RevokeOK: true, CbRedeemOK: true, CbUserOK: true, CbCode: "x", Domains: ex, Scheme: "https", CType: ctype}
+		switch sig {
+		case "good":
+			sr.SigVal = signB64(clientSecret, uri+ts)
+			sr.SigCoq = describe(sr.SigVal, clientSecret, uri+ts)
+		case "junk":
+			sr.SigVal = "anVuaw=="
+			sr.SigCoq = describe(sr.SigVal, "", "")
+		}
+		return sr
+	}
+	restore := -1
+	for i := 0; i < rounds; i++ {
+		if i == rounds/2 {
+			restore = runtime.GOMAXPROCS(1)
+		}
+		good := fmt.Sprintf("https://app.example.com/ovl/%d", i)
+		foreign := r.Pick([]string{"https://login.evil.test/collect", "https://app.attacker.net/oauth2/callback", "https://other.example.com/unsigned"})
+		// 1. a request that is rejected by the signature gate (or the redirect gate)
+		first := mk("sign_in", "GET", good, "none", "junk", "")
+		if r.Chance(0.3) {
+			first = mk("sign_out", "POST", good, "none", "junk", "urlencoded")
+		}
+		first.description = "overlap round: rejected request first"
+		cs = append(cs, serve(first))
+		// 2. A parks at the provider
+		A := mk("sign_in", "GET", good, "good", "good", "")
+		if r.Chance(0.3) {
+			A = mk("sign_out", "POST", good, "good", "good", "urlencoded") // parks in Revoke
+		}
+		A.description = "overlap round: request A, held at the identity provider while B runs"
+		park := make(chan struct{})
+		w.tp.entered = make(chan struct{}, 1)
+		w.tp.park = park
+		doneA := make(chan c.Case, 1)
+		go func() { doneA <- serve(A) }()
+		var caseA *c.Case
+		select {
+		case <-w.tp.entered:
+		case ca := <-doneA: // A never reached the provider
+			caseA = &ca
+		case <-time.After(10 * time.Second):
+		}
+		w.tp.park = nil
+		// 3. B runs to completion while A is in flight
+		var B serveReq
+		switch r.Intn(4) {
+		case 0:
+			B = mk("sign_in", "GET", foreign, "none", "junk", "")
+		case 1:
+			B = mk("sign_in", "GET", foreign, "good", "", "")
+		case 2:
+			B = mk("sign_out", "POST", foreign, "none", "junk", "urlencoded")
+		default:
+			B = mk("sign_in", "GET", fmt.Sprintf("https://b.example.com/ovl/%d", i), "good", "good", "")
+		}
+		B.description = "overlap round: request B, complete while A is in flight"
+		cs = append(cs, serve(B))
+		close(park)
+		if caseA == nil {
+			select {
+			case ca := <-doneA:
+				caseA = &ca
+			case <-time.After(10 * time.Second):
+			}
+		}
+		if caseA != nil {
+			cs = append(cs, *caseA)
+		}
+	}
+	if restore > 0 {
+		runtime.GOMAXPROCS(restore)
 	}
 	return cs
 }
@@ -1533,13 +1754,18 @@ func main() {
 	statsdClient, err = statsd.New("127.0.0.1:8125")
 	c.Must(err)
 	r := c.NewRng(a.Seed)
+	if a.Seed%2 == 0 {
+		// part of the runs in a zone east of UTC: instants (ts, deadlines) must mean the same
+		time.Local = time.FixedZone("UTC+9", 9*3600)
+	}
 	// step 1 of the timed sequences first; everything else runs while their deadline passes
 	cases, seq := startSequences(a.Tier)
 	cases = append(cases, corpus()...)
 	nParse := a.N * 35 / 100
 	nRedir := a.N * 20 / 100
 	nSig := a.N * 12 / 100
-	nServe := a.N - nParse - nRedir - nSig
+	nOuter := a.N * 8 / 100
+	nServe := a.N - nParse - nRedir - nSig - nOuter
 	for i := 0; i < nParse; i++ {
 		cases = append(cases, parseCase(genURI(r, pickDomains(r))))
 	}
@@ -1555,6 +1781,14 @@ func main() {
 	for i := 0; i < nServe; i++ {
 		cases = append(cases, genServe(r))
 	}
+	for i := 0; i < nOuter; i++ {
+		cases = append(cases, genOuter(r))
+	}
+	rounds := 24
+	if a.Tier == "thorough" {
+		rounds = 200
+	}
+	cases = append(cases, overlapCases(r, rounds)...)
 	cases = append(cases, seq.finish()...)
 	cases = append(cases, bootCases...)
 	c.Must(c.WriteShards(a.Out, "Corr_C07", cases, a.Shard))
